@@ -143,6 +143,7 @@ LARGE = [
     dict(n_particles=128, d=6, n_total=640, eval="poolobj", clustering=True, target="unequal", vv=0.5, cluster_every=3),
     dict(n_particles=1024, d=3, n_total=4096, eval="vec", clustering=True, target="bimodal", resample="syst", n_max_clusters=None),
     dict(n_particles=24, d=2, n_total=24 * 110, eval="scalar", clustering=True, target="bimodal", cluster_every=2, ess_ratio=1.0, max_iters=600, sample="rwm"),
+    dict(n_particles=1500, d=12, n_total=3000, eval="vec", clustering=True, target="gauss"),  # batches of 18000 values, not a multiple of any power-of-two block
 ]
 
 
